@@ -35,9 +35,19 @@ func (m *MovingMin[T]) Compute(c <-chan T) <-chan T {
 
 	bst := helper.NewBst[T]()
 
+	// The first Period values of the shifted stream are fill values, not
+	// values that have been inserted: there is nothing to remove for them.
+	count := 0
+
 	mins := helper.Operate(cs[0], cs[1], func(c, b T) T {
 		bst.Insert(c)
-		bst.Remove(b)
+
+		if count < m.Period {
+			count++
+		} else {
+			bst.Remove(b)
+		}
+
 		return bst.Min()
 	})
 
